@@ -34,6 +34,10 @@ def content_of(cls, rng, big):
         return 'caf\xe9 cr\xe8me br\xfbl\xe9e\n'.encode('latin-1'), 'latin-1'
     if cls == 'binary':
         return bytes(range(256)) + b'\x00\xff\r\n\r\x1a', None
+    if cls == 'armorinside':
+        # content that quotes an armored OpenPGP block (and a cleartext signed one) after other text, plus octets outside ASCII
+        return ('forwarded \u2014 see below:\n-----BEGIN PGP MESSAGE-----\n\nyxJiAAAAAABxdW90ZWQ=\n=1gKx\n-----END PGP MESSAGE-----\n'
+                '-----BEGIN PGP SIGNED MESSAGE-----\nHash: SHA256\n\nquoted note\n-----BEGIN PGP SIGNATURE-----\n\nwnUEARYIAB0=\n=abcd\n-----END PGP SIGNATURE-----\n'), None
     if cls == 'bom':
         return '\ufeffa byte-order mark is a character like any other\n\ufeffsecond line\n', None
     if cls == 'farcopy':
